@@ -141,6 +141,35 @@ class Ctx:
         self.add_design('WireInjectMC %s(%d programs, <=%d calls each)' % (label, len(acc), maxcalls), g, d,
                         'invariants TypeOK AtMostOnce ReleaseIsReversePrefix NoCleanupWhileRunning AllReleasedWhenDone AcquiredRan DependentBeforeDependency DependencyOrder NoCallAfterFailure NoLeak; liveness Terminates')
 
+    def design_analyze(self, cases, limit=600, label='', free_roots=True):
+        """TLC checks that WireAnalyze (the analysis as the code does it) refines WireSem on these programs;
+        returns {case key: set of (acyclic iterations, solve iterations) the machine predicts} for single-injector cases"""
+        cs = core.sample([c for c in cases if c['prog'].get('fam') not in ('F', 'E', 'D')], limit, self.seed)
+        if not cs:
+            return {}
+        self.nbatch += 1
+        path = self.sc.path('an%d.cases.ndjson' % self.nbatch)
+        with open(path, 'w') as f:
+            for c in cs:
+                f.write(json.dumps(c) + '\n')
+        cfg = ('SPECIFICATION Spec\nCONSTANTS\n CasesFile = "%s"\n FreeRootOrder = %s\n'
+               'INVARIANTS MapRefines AcyclicRefines AcyclicWork SolveRefines PlanCorrect SolveWork\nPROPERTY Termination\nCHECK_DEADLOCK FALSE\n'
+               % (path, 'TRUE' if free_roots else 'FALSE'))
+        rc, out, dt = core.tlc(self.sc, 'WireAnalyze', None, cfg, workers=8, timeout=3000)
+        if rc != 0 or 'No error has been found' not in out:
+            raise Broken('WireAnalyze does not refine WireSem on some program (a defect of the specification, never a violation): ' + out[-3000:])
+        g, d = core.tlc_stats(out)
+        pred = {}
+        import re as _re
+        for w in core.tlc_prints(out, 'WORK'):
+            m = _re.match(r'"([^"]*)", "([^"]*)", (\d+), (\d+)', w)
+            if m:
+                pred.setdefault(m.group(1), set()).add((int(m.group(3)), int(m.group(4))))
+        log('WireAnalyze model-checked over %d programs: %d states generated, %d distinct (%.1fs)' % (len(cs), g, d, dt))
+        self.add_design('WireAnalyze %s(%d programs)' % (label, len(cs)), g, d,
+                        'implementation-shaped model of buildProviderMap / verifyAcyclic / solve / verifyArgsUsed; invariants MapRefines AcyclicRefines AcyclicWork SolveRefines PlanCorrect SolveWork; liveness Termination')
+        return pred
+
     def add_design(self, name, states, distinct, note):
         self.design.append({'model': name, 'states_generated': states, 'distinct_states': distinct, 'note': note})
         self.res.cov['design_models'] = self.design
